@@ -180,3 +180,56 @@ PROPS['C08'] = {
     'technique': 'static analysis: decision-region walk (abstract interpretation over an exact finite partition) on MIR',
     'assumptions': COMMON_ASSUMPTIONS,
 }
+
+PROPS['C15'] = {
+    'modules': ['c15'],
+    'level': 'other',
+    'quick_configs': ['default', 'noalloc'],
+    'thorough_configs': ALL,
+    'controls': ['N1'],
+    'floors': {'default': {'N1': 6, 'N3.chars': 1, 'N3.len': 1, 'N6': 1, 'N5': 2}},
+    'rule_text': 'obligations: one per instance of create_file/create_dir/rename (two-state protocol: no unguarded device '
+                 'write before a name validator\'s Ok edge), the accepted-character table over all 0x110000 code points, '
+                 'the length table over all usize lengths, the accepted long-name sequence numbers, the buffer capacity '
+                 'and the two comparison functions; non-trivial = protocol fixed point or partition walk',
+    'explanation': 'N1: interprocedural two-state protocol over the monomorphic call graph: entering create_file / '
+                   'create_dir / rename in state Before, the Ok edge of any function that constructs '
+                   'InvalidFileNameLength/UnsupportedFileNameCharacter moves to After; an unguarded device write while '
+                   'Before is reported with its call chain (this is what found create_dir leaking a cluster and rename '
+                   'destroying the source on an invalid name). N3: the decision table of the validator over every code '
+                   'point equals the documented long-name set exactly, lengths accepted are exactly 1..=255. N6: the '
+                   'long-name decoder accepts exactly the sequence numbers 1..=ceil(255/13) the encoder can emit. N4/N5: '
+                   'capacity constants; both operands of the comparisons are case-folded. Not decided: lossless '
+                   'round-trip and case-insensitive matching of actual strings (runtime), panic-freedom of the name path '
+                   '(see C17/C07 inventory).',
+    'claim': 'Validate-before-side-effect on all paths (protocol proof over the call graph), exact accepted character set '
+             'and length bounds, reader/writer agreement on slot counts. Round-trip equality is not decided.',
+    'level_note': 'validators are identified by the public error variants they construct; a write behind a write-back latch '
+                  'is not counted as a side effect',
+    'technique': 'static analysis: two-state protocol dataflow over the mono call graph + decision-region walk',
+    'assumptions': COMMON_ASSUMPTIONS,
+}
+
+PROPS['C01'] = {
+    'modules': ['c15', 'c01'],
+    'level': 'other',
+    'quick_configs': ['default'],
+    'thorough_configs': ALL,
+    'controls': ['N1'],
+    'floors': {'default': {'N1': 6, 'R1.2': 6, 'R1.3': 1, 'R1.5': 6}},
+    'rule_text': 'obligations: N1 instances (shared with C15), one per mutation site of create_file/create_dir/'
+                 'rename_internal (must lie on the `name is free` arm), the emptiness guard of remove, the '
+                 'publish-before-delete order of rename, and one per intermediate path lookup; non-trivial = dominance or '
+                 'protocol query',
+    'explanation': 'Only the failure-atomicity clause of the statement is structural: every user-error decision '
+                   '(invalid name, already exists, directory not empty, not a directory) is taken before the first '
+                   'structural device write, on every path. Mutation sites are calls that may reach an unguarded device '
+                   'write in the mono call graph. R1.4 (rename publishes before it deletes) is violated on the pinned '
+                   'tree and listed as a known finding. Equality with an in-memory tree model over histories is not '
+                   'decided (runtime values).',
+    'claim': 'Failure atomicity with respect to user errors as ordering constraints on all paths; model equivalence is '
+             'not claimed.',
+    'level_note': 'recursion into the same operation on a sub-path is judged in its own right',
+    'technique': 'static analysis: dominance of mutation sites by decision edges on MIR + protocol dataflow',
+    'assumptions': COMMON_ASSUMPTIONS,
+}
